@@ -233,12 +233,16 @@ func (c02) Run(c Case, env *Env) Result {
 		}
 		var wire, wire2 []byte
 		var nameMap map[string]string
+		var typMap map[string]reflect.Type
 		var encErr, encErr2 error
 		pi, _ := Guard(func() {
-			_, nameMap = hessian.ExtractTypeNameMap(val)
+			typMap, nameMap = hessian.ExtractTypeNameMap(val)
 			// a complete name map must not be written to: keep a private copy per call
 			wire, encErr = hessian.ToBytes(val, copyNames(nameMap))
 			w := &mon.CountingWriter{}
+			if j%8 == 2 {
+				w.GCEvery = 97
+			}
 			enc := hessian.NewEncoder(w, copyNames(nameMap))
 			encErr2 = enc.WriteObject(val)
 			wire2 = w.Buf.Bytes()
@@ -269,6 +273,34 @@ func (c02) Run(c Case, env *Env) Result {
 		}
 		if cls, d := wireCheck(val, nameMap, wire2, nil); cls != "" {
 			viol(cls, "Encoder.WriteObject: "+d)
+		}
+		// the same Go types under OTHER registered class names (a second name map in the same
+		// process): the class definitions on the wire must carry the names of the map in use
+		if j%3 == 0 && typMap != nil {
+			nm2 := copyNames(nameMap)
+			renamed := 0
+			for goName, wireName := range nameMap {
+				if t, ok := typMap[goName]; ok && t.Kind() == reflect.Struct && t != zoo.TimeType {
+					nm2[goName] = wireName + ".v2"
+					renamed++
+				}
+			}
+			if renamed > 0 {
+				var w3 []byte
+				var e3 error
+				pi, _ := Guard(func() { w3, e3 = hessian.ToBytes(val, copyNames(nm2)) })
+				switch {
+				case pi != nil:
+					viol("panic@encode", "renamed classes: "+pi.Msg)
+				case e3 != nil:
+					viol("enc-error", "renamed classes: "+e3.Error())
+				default:
+					if cls, d := wireCheck(val, nm2, w3, nil); cls != "" {
+						viol(cls, "with a second name map (class names + \".v2\"): "+d)
+					}
+				}
+				res.Count("encodes_under_a_second_name_map", 1)
+			}
 		}
 	}
 	return res
